@@ -286,9 +286,25 @@ def graph_strategy(max_nodes=6, max_vars=5, max_attrs=3, arrays=True,
             max_size=max_attrs, unique_by=lambda kv: kv[0]).map(
                 lambda kv: [list(x) for x in kv]),
     })
+    def connect(d):
+      # construction, not rejection: a spanning backbone makes every node
+      # reachable and every Variable referenced at least once; the freely
+      # drawn attributes above add aliasing, back edges and cycles
+      links = d.pop('links')
+      for i in range(1, nn_):
+        parent = links[i] % i
+        d['nodes'][parent]['attrs'] = d['nodes'][parent]['attrs'] + [
+            [f'c{i}', {'k': 'ref', 'i': i}]]
+      for j in range(nv):
+        holder = links[nn_ + j] % nn_
+        d['nodes'][holder]['attrs'] = d['nodes'][holder]['attrs'] + [
+            [f'v{j}', {'k': 'var', 'i': j}]]
+      return d
     return st.fixed_dictionaries({
         'nodes': st.lists(node, min_size=nn_, max_size=nn_),
         'vars': st.lists(var, min_size=nv, max_size=nv),
-    })
+        'links': st.lists(st.integers(0, 60), min_size=nn_ + nv,
+                          max_size=nn_ + nv),
+    }).map(connect)
   return st.tuples(st.integers(1, max_nodes), st.integers(0, max_vars)).flatmap(
       lambda t: make(*t))
